@@ -672,6 +672,23 @@ def t_lb_range(facts, res, tier):
                 names = {p["segs"][-1] for p in pats if p.get("k") == "path"}
                 if names & set(BRANCHES) and "bytes_above" in expr_text(arm["body"]):
                     scanned = names
+    # no arm before the measuring one takes a conditional branch away from it (a guarded arm that skips some of them)
+    for m in walk(fn["body"]):
+        if m.get("k") == "match" and expr_text(m["e"]).endswith(".mnemonic") and any("bytes_above" in expr_text(a["body"]) for a in m["arms"]):
+            measuring = None
+            for ai, arm in enumerate(m["arms"]):
+                pats = arm["pat"]["alts"] if arm["pat"].get("k") == "or" else [arm["pat"]]
+                names = {p["segs"][-1] for p in pats if p.get("k") == "path"}
+                wild = any(p.get("k") in ("wild", "ident") for p in pats)
+                if names & set(BRANCHES) and "bytes_above" in expr_text(arm["body"]):
+                    measuring = ai
+                    if arm.get("guard") is not None:
+                        res.fail("T-LB-RANGE:scanned-mnemonics:guard", facts.where(fn, arm["guard"]), "the arm that measures the branches has a guard: the branches it rejects are not measured")
+                    break
+                if (names & set(BRANCHES)) or wild:
+                    res.fail("T-LB-RANGE:scanned-mnemonics:skipped", facts.where(fn, arm["body"]),
+                             "an arm before the measuring one takes %s out of the distance scan%s: such a branch keeps an 8-bit displacement whatever its distance (the BEQ of a `<=` pair lies two bytes further from a backward target than the branch before it)" % (
+                                 sorted(names & set(BRANCHES)) or "every mnemonic", " under `%s`" % expr_text(arm["guard"])[:50] if arm.get("guard") is not None else ""))
     res.inst("T-LB-RANGE:scanned-mnemonics", True, {"scanned": sorted(scanned or [])})
     if scanned is None or set(BRANCHES) - scanned:
         res.fail("T-LB-RANGE:scanned-mnemonics", facts.where(fn), "the distance scan does not cover %s" % sorted(set(BRANCHES) - (scanned or set())))
